@@ -31,7 +31,7 @@ import tempfile
 from types import SimpleNamespace
 
 from kits import rib as K
-from kits.rib import PeerTable, Table, Sender, cached_table, diff
+from kits.rib import PeerTable, Table, Sender, cached_table, diff, StaleWatch
 
 import exabgp.rib as ribpkg
 import exabgp.reactor.loop as loopmod
@@ -178,6 +178,9 @@ class World:
         self.ghost = {}                          # intended table per neighbor key
         self.api_live = {}                       # key -> list of API routes currently announced
         self.loaded = None
+        self.down = False
+        self.watch = {}
+        self.orphans = []                        # configured neighbors no Peer exists for (after the reactor reaped finished peers)
 
     def close(self):
         if self.tmp:
@@ -198,18 +201,25 @@ class World:
     def after_good_reload(self, name):
         """what the peers' coroutines do next with what Reactor.reload handed them"""
         from checks.c17 import main_loop_top, main_session_start, session_lost
-        for key in [k for k, p in self.reactor._peers.items() if p in REMOVED]:
+        for key in [k for k, p in self.reactor._peers.items() if p in REMOVED and not p._restart]:
             # Reactor._async_main_loop: "Remove completed peers" - the session of a neighbor which left the configuration ends
             del self.reactor._peers[key]
-            for table in (self.tables, self.senders, self.ghost, self.api_live):
+            for table in (self.tables, self.senders, self.ghost, self.api_live, self.watch):
                 table.pop(key, None)
         for key, peer in self.reactor._peers.items():
             if key not in self.tables:
                 self.tables[key] = PeerTable()
                 self.senders[key] = Sender(peer.neighbor.rib.outgoing, self.tables[key], False)
+                # diagnosis only (root cause in the signature): in which RIB primitive a superseded pending entry was left (F2 = _update_rib)
+                self.watch[key] = StaleWatch(peer.neighbor.rib.outgoing)
                 self.ghost[key] = Table()
                 self.api_live[key] = []
                 main_session_start(peer)                      # first session
+            elif self.down and peer.fsm.state != FSM.ESTABLISHED:
+                # still unreachable: one more failed connection attempt (Peer._reset takes the waiting neighbor)
+                session_lost(peer, self.senders[key], self.tables[key])
+                peer._teardown = None
+                peer._restarted = False
             elif peer._teardown is not None and peer._restarted:
                 session_lost(peer, self.senders[key], self.tables[key])   # reestablish: teardown -> _reset
                 peer._teardown = None
@@ -219,7 +229,10 @@ class World:
             else:
                 main_loop_top(peer)
         self.loaded = name
+        self.orphans = [key for key in self.cfg.neighbors if key not in self.reactor._peers]
         for key, nb in self.cfg.neighbors.items():
+            if key in self.orphans:
+                continue
             g = Table()
             for r in nb.routes:
                 g.set_route(r)
@@ -229,8 +242,28 @@ class World:
             self.ghost[key] = g
 
     def drain(self):
+        if self.down:
+            return
         for key, tx in self.senders.items():
             tx.send(None)
+
+    def go_down(self):
+        """every session is lost and the peers sit in their connect back-off (Peer._reset, FSM IDLE)"""
+        from checks.c17 import session_lost
+        for key, peer in self.reactor._peers.items():
+            session_lost(peer, self.senders[key], self.tables[key])
+        self.down = True
+
+    def come_up(self):
+        """the sessions establish again: Peer._main, 'Initialize RIB with previous routes'"""
+        from checks.c17 import main_session_start
+        for key, peer in self.reactor._peers.items():
+            if peer.fsm.state != FSM.ESTABLISHED:
+                peer._teardown = None
+                peer._restarted = False
+                peer.fsm.state = FSM.ESTABLISHED
+                main_session_start(peer)
+        self.down = False
 
     # -- API
 
@@ -322,9 +355,13 @@ def check_api_alive(ctx, w, how, info):
 
 def check_final(ctx, w, how, info):
     w.drain()
+    ctx.check('every-configured-neighbor-has-a-session', not w.orphans, sig='C17:%s:configured-neighbor-without-a-peer' % how,
+              info=dict(info, neighbors_without_peer=[short(k) for k in w.orphans]))
+    base = how
     for key, t in w.tables.items():
         peer = w.reactor._peers[key]
         cached = cached_table(peer.neighbor.rib.outgoing)
+        how = w.watch[key].cause(w.senders[key].stale_seen, base) if key in w.watch else base
         d = diff(t, w.ghost[key])
         i = dict(info, neighbor=short(key), peer=t.render(), expected=w.ghost[key].render(), adj_rib_out=cached.render())
         ctx.check('removed-routes-withdrawn', not [x for x in d if x[0] == 'extra'], sig='C17:%s:stale-route-at-peer' % how, info=i)
@@ -569,6 +606,51 @@ def h_seq(ctx, keep, n, prefix=()):
     return ['done', trail]
 
 
+GOOD_RELOADS = ('reload-A', 'reload-B', 'reload-C', 'reload-D')
+
+
+@guarded
+def h_back_to_back(ctx, keep, n):
+    """Reloads that follow each other faster than the peers take them up: between two accepted reloads the peer coroutines
+    either ran (took the new neighbor, restarted the session where its parameters changed) or did NOT (two SIGUSR1 in a
+    row; a peer sleeping in its connect back-off) - the solver's choice per step.  Once everything has settled the peers hold
+    exactly the routes of the LAST file."""
+    w = start(ctx)
+    keep.append(w)
+    trail = []
+    pending = None
+    sessions = ctx.pick('sessions', ['up', 'down'])
+    if sessions == 'down':
+        w.go_down()
+        trail.append('sessions lost')
+        ctx.cover('reloads-while-the-sessions-are-down')
+    for s in range(n):
+        step = ctx.pick('step%d' % s, [x for x in GOOD_RELOADS if x[-1] != (w.loaded if pending is None else pending)])
+        name = step[-1]
+        w.set_source(CONF[name])
+        r = w.reload()
+        ran = bool(ctx.bool('peers-ran-after-step%d' % s)) if s < n - 1 else True
+        trail.append(step + ('' if ran else ' (peers did not run before the next reload)'))
+        info = {'history': list(trail)}
+        ctx.check('good-file-loads', r is True, sig='C17:b2b:good-file-refused', info=info)
+        if r is not True:
+            return ['refused-good', trail]
+        if ran:
+            w.after_good_reload(name)
+            pending = None
+            if s % 2 == 1:
+                w.drain()
+        else:
+            pending = name
+            ctx.cover('reload-before-the-peers-took-up-the-previous-one')
+    if sessions == 'down':
+        w.come_up()
+        trail.append('sessions established again')
+    how = 'b2b:overtaken' if any('did not run' in t for t in trail) else 'b2b:taken-up'
+    check_final(ctx, w, how, {'history': trail})
+    return ['done', trail]
+
+
 def units(tier):
     from sx.run import Unit
     th = tier == 'thorough'
@@ -584,6 +666,8 @@ def units(tier):
     us.append(Unit('seq/2', lambda ctx: h_seq(ctx, 2), must_cover=('good-reload', 'failed-reload'), weight=40, max_seconds=900))
     # a neighbor which is reconfigured, leaves the configuration and comes back: what its earlier incarnation held is gone
     us.append(Unit('seq/leave-and-return', lambda ctx: h_seq(ctx, 3, prefix=('reload-B', 'reload-D')), must_cover=('good-reload',), weight=30, max_seconds=900))
+    us.append(Unit('seq/back-to-back/%d' % (3 if th else 2), lambda ctx: h_back_to_back(ctx, 3 if th else 2),
+                   must_cover=('reload-before-the-peers-took-up-the-previous-one', 'reloads-while-the-sessions-are-down'), weight=40, max_seconds=900))
     if th:
         us.append(Unit('seq/3', lambda ctx: h_seq(ctx, 3), must_cover=('good-reload', 'failed-reload'), weight=300, max_seconds=1500,
                        max_paths=100000))
